@@ -314,7 +314,7 @@ func init() {
 		RealStub: map[string]string{"verify.RawTdxQuote": "real", "clock": "Options.Now built from the simulated clock (no wall clock involved)", "CA / PCS validity windows": "stub (world)"},
 		Runs: func(tier string) int {
 			if tier == "thorough" {
-				return 400
+				return 800
 			}
 			return 24
 		},
